@@ -34,6 +34,8 @@ type pkgContext struct {
 	varPtrNames  map[*types.Var]string
 	anonTypes    []*types.TypeName
 	anonTypeMap  typeutil.Map
+	nilMethods   []*types.TypeName
+	nilMethodMap map[string]*types.TypeName
 	escapingVars map[*types.Var]bool
 	indentation  int
 	minify       bool
@@ -198,6 +200,7 @@ func Compile(srcs *sources.Sources, tContext *types.Context, minify bool) (_ *Ar
 	// discovered all of them referenced in functions, variable and type
 	// declarations.
 	typeDecls = append(typeDecls, rootCtx.anonTypeDecls(rootCtx.pkgCtx.anonTypes)...)
+	typeDecls = append(typeDecls, rootCtx.nilMethodDecls(rootCtx.pkgCtx.nilMethods)...)
 
 	// Combine all decls in a single list in the order they must appear in the
 	// final program.
